@@ -22,7 +22,7 @@ func init() {
 			}
 			return 1600
 		},
-		Rule: "case kinds by index: graft (every tip position on small trees), merge of two rooted trees with disjoint tips, insertion of identical tips (and the same group slices applied to a second copy), removal of single-child nodes placed at random (chains, under the root), subtree at every inner node including the root, clone text identity with node/root/branch comments, and independence: a random edit history on one twin while the other twin's text, structure and (when they described it at the start) indexes are re-observed after every step (both directions); non-trivial = the edit added/removed something and >= 3 pre-existing tips were compared, or >= 4 successful steps on a twin; distinct by inputs",
+		Rule: "case kinds by index: graft (every tip position on small trees), merge of two rooted trees with disjoint tips, insertion of identical tips (and the same group slices applied to a second copy; every third such case also through gotree repopulate with the groups in a file), removal of single-child nodes placed at random (chains, under the root), subtree at every inner node including the root, clone text identity with node/root/branch comments, and independence: a random edit history on one twin while the other twin's text, structure and (when they described it at the start) indexes are re-observed after every step (both directions); non-trivial = the edit added/removed something and >= 3 pre-existing tips were compared, or >= 4 successful steps on a twin; distinct by inputs",
 		Assumptions: []string{
 			"path sums to 1e-9 relative with absent length = 0; Merge's new root branches are not asserted (their length is a convention)",
 		},
